@@ -234,7 +234,7 @@ func (v *c15Env) prepare(qi int, q c15Req) *c15Flight {
 	body := fmt.Sprintf(`{"apiVersion":"apiextensions.k8s.io/v1","kind":"ConversionReview","request":{"uid":%q,"desiredAPIVersion":%q,"objects":[%s]}}`,
 		uid, q.Desired, strings.Join(objs, ","))
 	mine := v.e.rulesOf(q.Crd) // the rules declared for the CRD of this request, and only those
-	params := fmt.Sprintf("rules=%s links=%s to=%s group=%s objs=%s script=%s", c15Rules(mine), c15Rules(mine),
+	params := fmt.Sprintf("crd=%s rules=%s links=%s to=%s group=%s objs=%s script=%s", c15CrdNames[q.Crd], c15Rules(mine), c15Rules(mine),
 		c15Tok(q.Desired), c15Group, c15ObjsTok(ids, vers), strings.ReplaceAll(joinStrs(q.Script), ",", ";"))
 	return &c15Flight{qi: qi, q: q, uid: uid, body: body, params: params}
 }
